@@ -831,6 +831,29 @@ func (e *eng) hooks(r *runState) {
 		_, xr := x.(*nodeRef)
 		_, yr := y.(*nodeRef)
 		if (op == token.EQL || op == token.NEQ) && (xr || yr) {
+			// == on interface values aborts when both hold the same dynamic type and
+			// that type is not comparable (a struct containing a slice)
+			cands := func(v absint.Val) []string {
+				switch n := v.(type) {
+				case *nodeRef:
+					if n.chosen != "" {
+						return []string{n.chosen}
+					}
+					return n.class
+				case *absint.Iface:
+					if nt, ok := n.T.(*types.Named); ok {
+						return []string{nt.Obj().Name()}
+					}
+				}
+				return nil
+			}
+			for _, a := range cands(x) {
+				for _, b := range cands(y) {
+					if a == b && e.impls[a] != nil && !deepComparable(e, a, map[string]bool{}) {
+						in.Undecided("abort: == on two "+a+" nodes: comparing uncomparable type (the node, or a node it contains, holds a slice)", nil)
+					}
+				}
+			}
 			eq := in.Oracle.Choose(2, "subtrees equal") == 1
 			return absint.MkBool(eq == (op == token.EQL)), true
 		}
@@ -965,6 +988,7 @@ func (e *eng) hooks(r *runState) {
 		}
 		return res(ref.mat[tn], true)
 	}
+	fetchClass := map[int64]bool{e.addrK["AddrDS"]: true, e.addrK["AddrLcl"]: true, e.addrK["AddrCls"]: true, e.addrK["AddrGbl"]: true}
 	in.Hooks.Invoke = func(in *absint.Interp, recv absint.Val, m *types.Func, args []absint.Val, site ssa.Instruction) (absint.Val, bool) {
 		ref, ok := recv.(*nodeRef)
 		if !ok {
@@ -1013,11 +1037,20 @@ func (e *eng) hooks(r *runState) {
 					if o.HC != *ref.hc {
 						continue
 					}
-					g := groups[o.goKey()]
+					// a parent distinguishes Stck, Inv and Tmp descriptors; every
+					// other kind (DS, Lcl, Cls, Gbl) is just "fetchable" to it, except
+					// for assignment targets whose kind selects the store
+					gk := o.goKey()
+					if fetchClass[o.Kind] && !strings.Contains(ref.field, "VarRef") {
+						gk = fmt.Sprintf("fetchable z%v d%v", o.AddrZero, o.Dirty)
+					}
+					g := groups[gk]
 					if g == nil {
 						g = &childGroup{Kind: o.Kind, AddrZero: o.AddrZero, Dirty: o.Dirty}
-						groups[o.goKey()] = g
-						from[o.goKey()] = tn
+						groups[gk] = g
+						from[gk] = tn
+					} else if o.Kind < g.Kind {
+						g.Kind = o.Kind
 					}
 					dup := false
 					for _, v := range g.Vars {
@@ -1069,4 +1102,31 @@ func (r *runState) choose(ref *nodeRef) string {
 		ref.chosen = ref.class[r.in.Oracle.Choose(len(ref.class), "type of "+ref.field)]
 	}
 	return ref.chosen
+}
+
+// deepComparable: comparing two values of node type tn with == cannot panic:
+// the type is comparable and so is every node type an interface field of it can hold.
+func deepComparable(e *eng, tn string, seen map[string]bool) bool {
+	if seen[tn] {
+		return true
+	}
+	seen[tn] = true
+	t := e.impls[tn]
+	if !types.Comparable(t) {
+		return false
+	}
+	st, ok := t.Underlying().(*types.Struct)
+	if !ok {
+		return true
+	}
+	for i := 0; i < st.NumFields(); i++ {
+		if types.Identical(st.Field(i).Type(), e.nodeT) {
+			for _, c := range e.classes[tn+"."+st.Field(i).Name()] {
+				if !deepComparable(e, c, seen) {
+					return false
+				}
+			}
+		}
+	}
+	return true
 }
